@@ -208,6 +208,9 @@ type srvWorld struct {
 	causes    []stopCause
 	arrScan   int
 	started   bool
+	restartEnd *End // if set, the server is started on this end as soon as WaitStatus returns
+	restarted  bool
+	activeAtRestart string
 	restartSeq int // seq at which the server was started again on a fresh channel (-1)
 	qpoints   []int // sequence numbers of the quiescent points seen so far
 	status    *jrpc2.ServerStatus
@@ -1040,6 +1043,15 @@ func (w *srvWorld) shutdown() bool {
 		w.status = &st
 		w.waitSeq = w.seq()
 		r.Ev("waitstatus", "", 0, 0, fmt.Sprintf("%+v", st))
+		if w.restartEnd != nil && w.running == 0 {
+			// restart at once, while goroutines the server does not wait for
+			// (callback watchers) may still be winding down
+			w.restartSeq = w.seq()
+			w.activeAtRestart = serversActiveNow()
+			w.srv.Start(w.restartEnd)
+			w.restarted = true
+			r.Ev("restart", "", 0, 0, "immediately after WaitStatus")
+		}
 	})
 	return r.RunQ()
 }
@@ -1074,6 +1086,9 @@ func (w *srvWorld) sample() any {
 // progress checks, at a quiescent point, that no dispatchable request is
 // waiting without a reason the properties allow (C03 second sentence, C06 work
 // conservation). It returns a description of the first request found stuck.
+// progress is C03's reading: a message none of whose requests has started,
+// although nothing the property allows holds it back, is being delayed (by a
+// running call). Requests of a message that has partly started are C06's.
 func (w *srvWorld) progress() string { return w.progressOf(false) }
 
 // progressOf: with dispatchedOnly, only requests whose message has provably
@@ -1086,10 +1101,12 @@ func (w *srvWorld) progressOf(dispatchedOnly bool) string {
 		return ""
 	}
 	lastStarted := -1
+	msgStarted := map[int]bool{}
 	for _, msg := range w.msgs {
 		for _, m := range msg.Members {
 			if m.Enter >= 0 || m.Logged >= 0 {
 				lastStarted = msg.Idx
+				msgStarted[msg.Idx] = true
 			}
 		}
 	}
@@ -1104,6 +1121,9 @@ func (w *srvWorld) progressOf(dispatchedOnly bool) string {
 			}
 			started := m.Enter >= 0 || (m.Kind == mRPCInfo && m.Logged >= 0) || w.cancelRequested(m)
 			if dispatchedOnly && msg.Idx > lastStarted {
+				continue
+			}
+			if !dispatchedOnly && msgStarted[msg.Idx] {
 				continue
 			}
 			if !started && !unfinishedNoteBefore && w.running < w.K {
